@@ -307,6 +307,83 @@ def ensemble (agg : Option Agg) (names : List String) (Fs : List Forecaster) : F
   cutoff := fun (b, _) => b.cutoff
   setCutoff := fun (b, ss?) c => ({ b with cutoff := c }, ss?.map (fun ss => setCutoffAll Fs ss c))
 
+/-! ### OnlineEnsembleForecaster with an ensemble algorithm -/
+
+/-- an abstract weighting algorithm (`ensemble_algorithm`: NNLSEnsemble, NormalHedgeEnsemble, …):
+`init n` = constructed for `n` estimators (uniform weights), `update` = shown the members' forecasts
+(one list per member) and the observed values, `weights` = the weights it holds -/
+structure Weigher where
+  S : Type
+  init : Nat → S
+  update : S → List (List Rat) → List Rat → W S
+  weights : S → List Rat
+
+/-- `(row * weights).sum()` -/
+def wsumRow (ws : List Rat) (row : List Rat) : Rat := sumR (List.zipWith (· * ·) row ws)
+
+/-- `(pd.concat(member forecasts, axis=1) * weights).sum(axis=1)` -/
+def weighted (ws : List Rat) (ps : List Series) : Series :=
+  (firstLabels ps).zip ((rowsOf (nRows ps) ps).map (wsumRow ws))
+
+def stepsTo (n : Nat) : Horizon := (List.range n).map (fun (i : Nat) => (i : Int) + 1)
+
+/-- OnlineEnsembleForecaster(forecasters, ensemble_algorithm = A).  `fit` does not touch the algorithm
+(its weights persist over refits); `update` with a non-empty batch first shows the algorithm the
+members' forecasts for the steps 1…len(batch) — AFTER `_update_y_X` has moved the members' cutoffs
+to the end of the batch (since /repo dabf16c; see findings) — and then updates the members;
+`predict` = Σ weightᵢ · forecastᵢ with the weights the algorithm holds at that moment. -/
+def onlineEnsembleG (fixed : Bool) (A : Weigher) (names : List String) (Fs : List Forecaster) : Forecaster where
+  S := Base × Option (States Fs) × A.S
+  init := ({}, none, A.init Fs.length)
+  fit := fun (b, _, a) y fh => do
+    let b ← W.lift (b.setYX y)
+    let b ← W.lift (b.setFhOpt fh)
+    W.lift (checkMembers names Fs.length)
+    let ss ← fitAll Fs y fh
+    pure ({ b with fitted := true }, some ss, a)
+  update := fun (b, ss?, a) y up => do
+    W.lift b.checkFitted
+    let b := b.updateYX y
+    match ss? with
+    | none => W.fail .notFitted
+    | some ss =>
+      if y.isEmpty then
+        let ss' ← updateAll Fs ss y up
+        pure (b, some ss', a)
+      else
+        let (ss1, ps) ← predictAll Fs (if fixed then ss else setCutoffAll Fs ss (lastLabel y)) (some (stepsTo y.length))
+        let a' ← A.update a (ps.map values) (values y)
+        let ss' ← updateAll Fs ss1 y up
+        pure (b, some ss', a')
+  predict := fun (b, ss?, a) fh => do
+    W.lift b.checkFitted
+    let b ← W.lift (b.setFhOpt fh)
+    let f ← W.lift b.getFh
+    match ss? with
+    | none => W.fail .notFitted
+    | some ss =>
+      let (ss', ps) ← predictAll Fs ss (some f)
+      pure ((b, some ss', a), weighted (A.weights a) ps)
+  cutoff := fun (b, _, _) => b.cutoff
+  setCutoff := fun (b, ss?, a) c => ({ b with cutoff := c }, ss?.map (fun ss => setCutoffAll Fs ss c), a)
+
+/-- the online ensemble of the current /repo tree (`fixed = true`: the proposed repair
+findings/C09-online-update-learns-before-moving-cutoff.patch, where the algorithm is shown the members'
+forecasts made BEFORE the cutoffs are moved, i.e. forecasts for the labels of the new batch) -/
+def onlineEnsemble (A : Weigher) (names : List String) (Fs : List Forecaster) : Forecaster :=
+  onlineEnsembleG false A names Fs
+
+/-- a weighting algorithm replayed from a tape: the weights the REAL algorithm held after each of its
+updates (its arithmetic — NNLS, root finding — is a library black box, fed back as data) -/
+def tapeWeigher (tape : List (List Rat)) : Weigher where
+  S := List (List Rat) × List Rat
+  init := fun n => (tape, List.replicate n (1 / (n : Rat)))
+  update := fun (t, _) _ _ =>
+    match t with
+    | [] => W.fail .other
+    | w :: r => pure (r, w)
+  weights := fun s => s.2
+
 /-! ### TransformedTargetForecaster -/
 
 def TStates : List Transformer → Type
@@ -541,8 +618,9 @@ def recF (p : LeafP) : Forecaster where
     W.lift b.checkFitted
     let b ← W.lift (b.setFhOpt fh)
     let f ← W.lift b.getFh
-    W.tell [.fc p.tag "predict" [] (some f) none]
-    pure ((b, lv), f.map (fun h => (b.cutoff.getD 0 + h, lv + p.d * (h : Rat))))
+    let out : Series := f.map (fun h => (b.cutoff.getD 0 + h, lv + p.d * (h : Rat)))
+    W.tell [.fc p.tag "predict" out (some f) none]
+    pure ((b, lv), out)
   cutoff := fun (b, _) => b.cutoff
   setCutoff := fun (b, lv) c => ({ b with cutoff := c }, lv)
 
